@@ -102,9 +102,11 @@ def identities(ctx, bname, Cp, Cout, T, pi, eqflag, tag):
 
 def run_case(ctx, kind, rng, idx):
     from vf.monitor import Frozen
-    C = mc.strongly_connected_counts(rng)
-    n = len(C)
     bname = ['normalize', 'transpose', 'mle'][int(rng.integers(0, 3))]
+    # the Prinz iteration converges very slowly on periodic chains (minutes
+    # in pure Python): periodic structures only for the two direct builders
+    C = mc.strongly_connected_counts(rng, allow_periodic=bname != 'mle')
+    n = len(C)
     pk = ['none', 'none', 'scalar', 'matrix'][int(rng.integers(0, 4))]
     if pk == 'scalar':
         prior = [1, 0.5, 1 / n][int(rng.integers(0, 3))]
